@@ -1275,6 +1275,10 @@ def m_opt_unwrap(eng, st, fr, fn, args, t):
 
 def m_opt_unwrap_or(eng, st, fr, fn, args, t):
     v = args[0]
+    # `a.checked_add(b).unwrap_or(Duration::MAX)` is how std defines `a.saturating_add(b)`
+    if v[0] == "call" and v[1] == "core::time::Duration::checked_add" and is_const(args[1]) and \
+            "core::time::Duration::MAX" in str(args[1]):
+        return _ret(st, ("call", "core::time::Duration::saturating_add", v[2]))
     out = []
     for (s2, var, payload) in _fork_option(eng, st, v):
         out.append((s2, payload if var == "Some" else args[1]))
@@ -1396,6 +1400,22 @@ def m_opt_unwrap_or_else(eng, st, fr, fn, args, t):
             out.append((s2, payload))
             continue
         out.extend(eng.run_sub(s2, body, [args[1]], fr.depth + 1))
+    return out
+
+
+def m_res_map(eng, st, fr, fn, args, t):
+    """Result::map(r, f) with a closure literal: the closure is inlined on the Ok arm; an Err passes through"""
+    body = eng.closure_body(args[1])
+    if body is None or eng.loops(body):
+        return None
+    out = []
+    res = "core::result::Result"
+    for (s2, var, payload) in _fork_result(eng, st, args[0]):
+        if var == "Err":
+            out.append((s2, ("agg", "adt", res, "Err", (("0", payload),))))
+            continue
+        for (s3, rv) in eng.run_sub(s2, body, [args[1], payload], fr.depth + 1):
+            out.append((s3, ("agg", "adt", res, "Ok", (("0", rv),))))
     return out
 
 
@@ -1660,6 +1680,11 @@ def _reflexive_type(eng, ty):
 def m_try_branch(eng, st, fr, fn, args, t):
     v = args[0]
     sty = fn.get("self_ty", "")
+    if sty.startswith("core::result::Result") and v[0] == "agg" and v[1] == "adt" and v[3] in ("Ok", "Err"):
+        # `?` on a Result whose variant is known on this path (a literal Ok(..) / Err(..), e.g. out of `transpose`)
+        if v[3] == "Ok":
+            return _ret(st, ("agg", "adt", "core::ops::control_flow::ControlFlow", "Continue", (("0", v[4][0][1]),)))
+        return _ret(st, ("agg", "adt", "core::ops::control_flow::ControlFlow", "Break", (("0", v),)))
     if not sty.startswith("core::option::Option"):
         return None
     out = []
@@ -1668,6 +1693,22 @@ def m_try_branch(eng, st, fr, fn, args, t):
             out.append((s2, ("agg", "adt", "core::ops::control_flow::ControlFlow", "Continue", (("0", payload),))))
         else:
             out.append((s2, ("agg", "adt", "core::ops::control_flow::ControlFlow", "Break", (("0", mk_none()),))))
+    return out
+
+
+def m_opt_transpose(eng, st, fr, fn, args, t):
+    """Option<Result<T, E>>::transpose: None -> Ok(None), Some(Ok(x)) -> Ok(Some(x)), Some(Err(e)) -> Err(e)"""
+    out = []
+    res = "core::result::Result"
+    for (s2, var, payload) in _fork_option(eng, st, args[0]):
+        if var == "None":
+            out.append((s2, ("agg", "adt", res, "Ok", (("0", mk_none()),))))
+            continue
+        for (s3, rv, inner) in _fork_result(eng, s2, payload):
+            if rv == "Ok":
+                out.append((s3, ("agg", "adt", res, "Ok", (("0", mk_some(inner)),))))
+            else:
+                out.append((s3, ("agg", "adt", res, "Err", (("0", inner),))))
     return out
 
 
@@ -1765,6 +1806,7 @@ DEFAULT_MODELS = {
     "core::option::Option::<T>::unwrap_or": m_opt_unwrap_or,
     "core::option::Option::<T>::unwrap_or_default": m_opt_unwrap_or_default,
     "core::option::Option::<T>::map": m_opt_map,
+    "core::result::Result::<T, E>::map": m_res_map,
     "<core::option::Option<T> as core::default::Default>::default": m_opt_default,
     "core::option::Option::<T>::is_some_and": m_opt_map,
     "core::option::Option::<T>::filter": m_opt_filter,
@@ -1788,6 +1830,7 @@ DEFAULT_MODELS = {
     "core::cmp::PartialEq::eq": m_eq,
     "core::cmp::PartialEq::ne": m_eq,
     "core::ops::try_trait::Try::branch": m_try_branch,
+    "core::option::Option::<core::result::Result<T, E>>::transpose": m_opt_transpose,
     "core::ops::try_trait::FromResidual::from_residual": m_from_residual,
     "core::cmp::Ord::max": m_max,
     "alloc::vec::Vec::<T, A>::len": m_len,
